@@ -30,6 +30,7 @@ type Roles struct {
 	CancelAPI       *ssa.Function   // exported cancel
 	Expiry          *ssa.Function   // delay-expiry handler
 	MarkCanceled    *ssa.Function
+	modeMemo        *[3]int64
 	Shutdown        *ssa.Function
 	Save            *ssa.Function
 	Load            *ssa.Function
